@@ -1304,7 +1304,7 @@ pub fn run_c05(args: &Args, model: &mut Model) -> Report {
             check_fsm(&c, true, model, &mut rep, "corpus");
         }
     }
-    let (mut np, mut nr, mut nf) = if args.thorough { (15000, 15000, 5000) } else { (500, 600, 260) };
+    let (mut np, mut nr, mut nf) = if args.thorough { (15000, 15000, 5000) } else { (1200, 1200, 500) };
     if !only("prims") {
         np = 0;
     }
@@ -1806,7 +1806,7 @@ pub fn run_c18(args: &Args, model: &mut Model) -> Report {
     check_sink_prims(&[WOp::S("ab".into())], &[(1, Fault::Acc(1))], false, model, &mut rep, "corpus");
     check_sink_prims(&[WOp::S("ab".into()), WOp::U(1)], &[(0, Fault::Err)], false, model, &mut rep, "corpus");
     check_sink_prims(&[WOp::U(300), WOp::B(true)], &[(1, Fault::Acc(0))], false, model, &mut rep, "corpus");
-    let (nf, np) = if args.thorough { (150, 6000) } else { (20, 400) };
+    let (nf, np) = if args.thorough { (65, 6000) } else { (26, 500) };
     for i in 0..nf {
         checkpoint(&rep, args, &format!("c18 generated model {}", i));
         let mut p = Prng::for_case(args.seed ^ 0xC18, i);
